@@ -30,6 +30,22 @@ PLAN_REPEAT = _e1p.Plan('C06', sorted(n for n in _REG if n in _e1p.ROWS and _e1p
                         case_kw=lambda rng, row: {'mpu': False, 'mmu': False, 'e': 0}, hooked=(False, True))
 
 
+# "the result depends on no run-time state other than the word itself (and the carry flag where the architecture says so)": every ARM row with an
+# immediate-shifted register operand, half of the words forced to RRX (type 11, imm5 0) - the one shifter operand whose VALUE takes APSR.C in - executed on
+# both flavours (the hooked one observes what hints are given to the memory system) and compared with the reference
+def _rrx(row, w, entropy):
+    if (entropy >> 3) & 1 and 't' in row.fields and 'i' in row.fields and len(row.fields['t']) == 2 and len(row.fields['i']) == 5:
+        for k_, v in (('t', 3), ('i', 0)):
+            for j, p_ in enumerate(reversed(row.fields[k_])):
+                w = (w & ~(1 << p_)) | (((v >> j) & 1) << p_)
+    return w
+
+
+PLAN_CARRY = _e1p.Plan('C06', sorted(n for n in _REG if n in _e1p.ROWS and _e1p.ROWS[n][0] == 'arm' and len(_e1p.ROWS[n][1].fields.get('t', ())) == 2
+                                     and len(_e1p.ROWS[n][1].fields.get('i', ())) == 5), cfgs=('v6', 'v7'), tweak_word=_rrx, hooked=(True, False),
+                       case_kw=lambda rng, row: {'mpu': False, 'mmu': False, 'e': 0})
+
+
 def run(ctx):
     ctx.rule = ('Class selection: all paths of arm_instruction_set.decode_instruction are enumerated with a provenance-tracking int '
                 'jointly with the reference encoding table (vf/ref/enc_arm.py, rows written from DDI 0406C); on every joint region '
@@ -54,6 +70,7 @@ def run(ctx):
     tasks += [(chk.undef_shard, ('vf.props.c06:SPEC', cn, ctx.shard_seed(1200 + k), ctx.n(40, 600))) for k, cn in enumerate(('v7-mp', 'v7-virt', 'v7-tee', 'v7r', 'v7-vfp'))]
     tasks += [(_e1p.shard_repeat, ('vf.props.c06:PLAN_REPEAT', ctx.shard_seed(900 + i), ctx.n(150, 3000))) for i in range(8)]
     tasks += _e1p.history_tasks(ctx, 'vf.props.c06:PLAN_REPEAT', quick=250)
+    tasks += [(_e1p.shard, ('vf.props.c06:PLAN_CARRY', ctx.shard_seed(1300 + i), ctx.n(150, 3000))) for i in range(8)]
     tasks += [(chk.operand_path_shard, ('vf.props.c06:SPEC', i, 16, ctx.shard_seed(1000 + i), ctx.n(300, 3000))) for i in range(16)]
     ctx.pmap(_dispatch, tasks)
     ctx.acc.exhaustive = True
